@@ -297,7 +297,16 @@ func callRecv(call ssa.CallInstruction) ssa.Value {
 // ---------------------------------------------------------------------------
 // Canonical expression strings (access paths)
 
-func (w *World) expr(v ssa.Value) string { return exprD(v, 0, map[ssa.Value]bool{}) }
+// World.subst maps callee parameters to the caller's argument expressions while a callee summary is
+// evaluated for one call site (goroutine-local by construction: one World per goroutine, guarded by substMu).
+type ectx struct {
+	m   map[ssa.Value]bool
+	sub map[ssa.Value]string
+}
+
+func (w *World) newEctx() *ectx { return &ectx{m: map[ssa.Value]bool{}, sub: w.subst} }
+
+func (w *World) expr(v ssa.Value) string { return exprD(v, 0, w.newEctx()) }
 
 func stripConv(v ssa.Value) ssa.Value {
 	for {
@@ -316,12 +325,17 @@ func stripConv(v ssa.Value) ssa.Value {
 	}
 }
 
-func exprD(v ssa.Value, d int, seen map[ssa.Value]bool) string {
+func exprD(v ssa.Value, d int, seen *ectx) string {
 	if v == nil {
 		return "<nil>"
 	}
 	if d > 10 {
 		return "…"
+	}
+	if seen.sub != nil {
+		if r, ok := seen.sub[v]; ok {
+			return r
+		}
 	}
 	switch x := v.(type) {
 	case *ssa.Parameter:
@@ -395,20 +409,26 @@ func exprD(v ssa.Value, d int, seen map[ssa.Value]bool) string {
 		}
 		return s + "]"
 	case *ssa.Alloc:
+		if st := singleStore(x); st != nil && !seen.m[v] {
+			seen.m[v] = true
+			r := exprD(st.Val, d+1, seen)
+			delete(seen.m, v)
+			return r
+		}
 		if x.Comment != "" {
 			return "&" + x.Comment
 		}
 		return "&alloc"
 	case *ssa.Phi:
-		if seen[v] {
+		if seen.m[v] {
 			return "phi:" + x.Comment
 		}
-		seen[v] = true
+		seen.m[v] = true
 		var parts []string
 		for _, e := range x.Edges {
 			parts = append(parts, exprD(e, d+2, seen))
 		}
-		delete(seen, v)
+		delete(seen.m, v)
 		sort.Strings(parts)
 		parts = uniq(parts)
 		return "phi(" + strings.Join(parts, "|") + ")"
@@ -434,6 +454,23 @@ func exprD(v ssa.Value, d int, seen map[ssa.Value]bool) string {
 		return "select"
 	}
 	return fmt.Sprintf("%T", v)
+}
+
+// singleStore returns the only whole-value store into a local variable slot, if there is exactly one.
+func singleStore(a *ssa.Alloc) *ssa.Store {
+	var only *ssa.Store
+	if a.Referrers() == nil {
+		return nil
+	}
+	for _, r := range *a.Referrers() {
+		if st, ok := r.(*ssa.Store); ok && st.Addr == a {
+			if only != nil {
+				return nil
+			}
+			only = st
+		}
+	}
+	return only
 }
 
 func uniq(s []string) []string {
@@ -470,7 +507,7 @@ func fieldVar(t types.Type, i int) *types.Var {
 	return nil
 }
 
-func callExpr(x ssa.CallInstruction, d int, seen map[ssa.Value]bool) string {
+func callExpr(x ssa.CallInstruction, d int, seen *ectx) string {
 	c := x.Common()
 	var args []string
 	for _, a := range callArgs(x) {
@@ -508,7 +545,7 @@ func callExpr(x ssa.CallInstruction, d int, seen map[ssa.Value]bool) string {
 }
 
 func (w *World) callStr(c ssa.CallInstruction) string {
-	return callExpr(c, 0, map[ssa.Value]bool{})
+	return callExpr(c, 0, w.newEctx())
 }
 
 // ---------------------------------------------------------------------------
@@ -554,6 +591,20 @@ func boolConst(v ssa.Value) (bool, bool) {
 
 func normCond(v ssa.Value, pol bool) Atom {
 	switch x := v.(type) {
+	case *ssa.Phi:
+		// a && b lowered as phi(b|false): the true edge implies b; a || b as phi(b|true): false edge implies !b
+		var other ssa.Value
+		n := 0
+		for _, e := range x.Edges {
+			if c, ok := boolConst(e); ok && c == !pol {
+				continue
+			}
+			other = e
+			n++
+		}
+		if n == 1 {
+			return normCond(other, pol)
+		}
 	case *ssa.UnOp:
 		if x.Op == token.NOT {
 			return normCond(x.X, !pol)
@@ -677,11 +728,16 @@ func (q *pathQ) reach(b *ssa.BasicBlock, idx int) (ssa.Instruction, []*ssa.Basic
 		b    *ssa.BasicBlock
 		idx  int
 		prev int
+		only int // -1: both successors feasible; 0/1: only that successor (phi-of-constant condition)
 	}
-	visited := map[*ssa.BasicBlock]bool{}
-	queue := []item{{b, idx, -1}}
+	type vkey struct {
+		b    *ssa.BasicBlock
+		only int
+	}
+	visited := map[vkey]bool{}
+	queue := []item{{b, idx, -1, -1}}
 	if idx == 0 {
-		visited[b] = true
+		visited[vkey{b, -1}] = true
 	}
 	for qi := 0; qi < len(queue); qi++ {
 		it := queue[qi]
@@ -704,16 +760,58 @@ func (q *pathQ) reach(b *ssa.BasicBlock, idx int) (ssa.Instruction, []*ssa.Basic
 			continue
 		}
 		for si, s := range it.b.Succs {
+			if it.only >= 0 && si != it.only {
+				continue
+			}
 			if q.blocked != nil && q.blocked(Edge{it.b, si}) {
 				continue
 			}
-			if !visited[s] {
-				visited[s] = true
-				queue = append(queue, item{s, 0, qi})
+			only := phiConstSucc(it.b, s)
+			k := vkey{s, only}
+			if !visited[k] && !visited[vkey{s, -1}] {
+				visited[k] = true
+				queue = append(queue, item{s, 0, qi, only})
 			}
 		}
 	}
 	return nil, nil
+}
+
+// phiConstSucc: entering block s from pred p, if s branches on a phi whose incoming value from p is a
+// boolean constant, only one successor of s is feasible. Returns that successor index or -1.
+func phiConstSucc(p, s *ssa.BasicBlock) int {
+	if len(s.Instrs) == 0 {
+		return -1
+	}
+	ifi, ok := s.Instrs[len(s.Instrs)-1].(*ssa.If)
+	if !ok {
+		return -1
+	}
+	cond := ifi.Cond
+	neg := false
+	for {
+		u, ok := cond.(*ssa.UnOp)
+		if !ok || u.Op != token.NOT {
+			break
+		}
+		neg = !neg
+		cond = u.X
+	}
+	phi, ok := cond.(*ssa.Phi)
+	if !ok || phi.Block() != s {
+		return -1
+	}
+	for i, pr := range s.Preds {
+		if pr == p {
+			if c, ok := boolConst(phi.Edges[i]); ok {
+				if c != neg {
+					return 0
+				}
+				return 1
+			}
+		}
+	}
+	return -1
 }
 
 func instrIndex(in ssa.Instruction) int {
@@ -823,7 +921,7 @@ func (ge *guardEnv) passEdges(f *ssa.Function, g Guard, depth int) map[Edge]bool
 		if depth > 0 && (ea.A.Kind == "nil" || ea.A.Kind == "true") {
 			if c := atomCall(ea.A); c != nil {
 				if h := staticCallee(c); h != nil && h.Blocks != nil && strings.HasPrefix(pkgPathOf(h), modPath) {
-					if ge.ensures(h, g, depth-1) {
+					if ge.ensuresAt(c, h, g, depth-1) {
 						edges[ea.E] = true
 					}
 				}
@@ -849,13 +947,68 @@ func pkgPathOf(f *ssa.Function) string {
 // guardedLocal: every path from f's entry to target crosses a pass edge of g.
 func (ge *guardEnv) guardedLocal(f *ssa.Function, target ssa.Instruction, g Guard, depth int) (bool, []*ssa.BasicBlock) {
 	edges := ge.passEdges(f, g, depth)
-	r, p := reachFromEntry(f, edges, nil, target)
+	// a call to a helper without success indicator that establishes g on every return (panics or
+	// never returns otherwise) guards everything after it
+	var kill func(ssa.Instruction) bool
+	if depth > 0 {
+		kill = func(in ssa.Instruction) bool {
+			c, ok := in.(*ssa.Call)
+			if !ok || in == target {
+				return false
+			}
+			h := staticCallee(c)
+			if h == nil || h.Blocks == nil || !strings.HasPrefix(pkgPathOf(h), modPath) || hasSuccessIndicator(h) {
+				return false
+			}
+			return ge.ensuresAt(c, h, g, depth-1)
+		}
+	}
+	r, p := reachFromEntry(f, edges, kill, target)
 	return !r, p
+}
+
+func hasSuccessIndicator(h *ssa.Function) bool {
+	res := h.Signature.Results()
+	if res.Len() == 0 {
+		return false
+	}
+	last := res.At(res.Len() - 1).Type()
+	if types.Identical(last, errorType) {
+		return true
+	}
+	b, ok := last.Underlying().(*types.Basic)
+	return ok && b.Kind() == types.Bool
+}
+
+// ensuresAt evaluates ensures(h, g) for one call site: h's parameters are rendered as the caller's
+// argument expressions, so guards phrased over the caller's values match inside the helper.
+func (ge *guardEnv) ensuresAt(call ssa.CallInstruction, h *ssa.Function, g Guard, depth int) bool {
+	args := call.Common().Args
+	sub := map[ssa.Value]string{}
+	var keyParts []string
+	if len(args) == len(h.Params) {
+		for i, p := range h.Params {
+			sub[p] = ge.w.expr(args[i])
+			keyParts = append(keyParts, sub[p])
+		}
+	}
+	// free variables of closures keep their names
+	saved := ge.w.subst
+	ge.w.subst = sub
+	defer func() { ge.w.subst = saved }()
+	return ge.ensuresKeyed(h, g, depth, strings.Join(keyParts, ","))
 }
 
 // ensures: g holds at every success return of h.
 func (ge *guardEnv) ensures(h *ssa.Function, g Guard, depth int) bool {
-	key := funcKey(h) + "|" + g.Name
+	saved := ge.w.subst
+	ge.w.subst = nil
+	defer func() { ge.w.subst = saved }()
+	return ge.ensuresKeyed(h, g, depth, "")
+}
+
+func (ge *guardEnv) ensuresKeyed(h *ssa.Function, g Guard, depth int, ctx string) bool {
+	key := funcKey(h) + "|" + g.Name + "|" + ctx
 	switch ge.memo[key] {
 	case 1:
 		return true
